@@ -103,6 +103,37 @@ extern "C" void h_group_kernel(void) {
   } VF_CATCH
 }
 
+// ---- saved-game unit section kernel: a reader of arbitrary content that checks every request against the room left in its destination
+// object (solver side) and really writes the requested bytes (native side, so that an overrun is seen by the sanitizer).
+struct RoomReader : Stream::BidirectionalReader {
+  uint64_t pos = 0;
+  void ReadImplementation(void* buffer, std::size_t size) override {
+    if (vf_nondet_u8() & 1) throw std::runtime_error("room: end of stream");
+    vf_assert(size <= vf_buffer_room(buffer), "read request is larger than the object it is read into");
+#ifdef VF_NATIVE
+    memset(buffer, 0x5A, size);
+    if (size <= 64) for (std::size_t i = 0; i < size; i++) ((uint8_t*)buffer)[i] = vf_nondet_u8();
+#else
+    if (size <= 64) for (std::size_t i = 0; i < size && i < 64; i++) ((uint8_t*)buffer)[i] = vf_nondet_u8();
+#endif
+    pos += size;
+  }
+  std::size_t ReadPartial(void*, std::size_t) noexcept override { return 0; }
+  uint64_t Length() override { return ~0ull; }
+  uint64_t Position() override { return pos; }
+  void SeekForward(uint64_t o) override { pos += o; }
+  void SeekBackward(uint64_t o) override { pos -= o; }
+  void Seek(uint64_t p) override { pos = p; }
+};
+extern "C" void h_units_kernel(void) {
+  g_may_throw = true;
+  VF_TRY {
+    RoomReader r;
+    Map::ReadSavedGameUnits(r);
+    VF_WITNESS();
+  } VF_CATCH
+}
+
 // ---- saved games.  A sparse reader: the window holds the embedded map portion at offset 0x1E025; reads elsewhere deliver
 // arbitrary bytes (small reads) or leave the destination untouched (the 2047 x 120-byte unit array etc.); length symbolic.
 struct SparseReader : Stream::BidirectionalReader {
